@@ -1,2 +1,3 @@
+pub mod layout;
 pub mod prog;
 pub mod shrink;
